@@ -378,6 +378,66 @@ def runBlocks (P : Params) (addrOf : KeyId → Option Addr) (L : Ledger) (blocks
 
 def stakeOf (L : Ledger) (a : Addr) : UInt64 := match L.vals a with | some v => v.stake | none => 0
 
+/-! ## certificate results of a nested committee on the root chain (fsm/message_helpers.go, fsm/message.go, fsm/automatic.go)
+
+This is the path on which a proposer-supplied slash list of a NESTED chain reaches `HandleDoubleSigners`: a
+certificate-results transaction carries a certificate of the nested committee with `Results` attached. -/
+
+/-- `lib.CommitteeData` as far as the guards of `HandleCertificateResults` read it -/
+structure CommitteeData where
+  lastRootHeight : UInt64 := 0
+  lastChainHeight : UInt64 := 0
+deriving DecidableEq, Repr
+
+/-- `MessageCertificateResults.Check`, the part about the certificate (reward recipients, orders and checkpoint
+are inputs taken as well-formed). `phaseRule = false` is the behaviour before the repair: an ELECTION_VOTE
+certificate — whose sign bytes cover header and proposer key only — was let through with results attached. -/
+def certResultsCheck (phaseRule : Bool) (globalMax : Nat) (q : QC) : Option String :=
+  match Gate.checkBasic q globalMax with
+  | some e => some e
+  | none =>
+    if q.results.isNone then some Gen.Evidence.fsmErrEmptyCertificateResults
+    else if q.block.isSome then some ErrNilBlock
+    else
+      match q.header with
+      | none => some ErrEmptyView
+      | some hd => if phaseRule && hd.phase == phaseElectionVote then some ErrWrongPhase else none
+
+/-- a certificate-results transaction through `CheckTx` (stateless check, then the authorised signer: the
+certificate's proposer key) and `HandleMessageCertificateResults` → `HandleCertificateResults` →
+`HandleByzantine` → `HandleDoubleSigners`; the slash list is the one inside `Results`, which `CheckBasic` ties
+to `ResultsHash`. Not modelled: root/own chain id refusal, retirement, dex batch, swaps, checkpoint, non-signer
+counting, reward percents (none of them reads or writes a stake, the index or the tracker). -/
+def certificateResultsWith (phaseRule : Bool) (env : Env) (P : Params) (addrOf : KeyId → Option Addr) (L : Ledger)
+    (cd : CommitteeData) (q : QC) (signedByProposer : Bool) (slash : Option (List (Option DS))) :
+    Except String (Ledger × CommitteeData) :=
+  match certResultsCheck phaseRule env.globalMaxBlockSize q with
+  | some e => .error e
+  | none =>
+    if !signedByProposer then .error Gen.Evidence.fsmErrUnauthorizedTx
+    else
+      match q.header with
+      | none => .error ErrEmptyView
+      | some hd =>
+        match env.committeeAt hd.rootHeight with
+        | none => .error ErrNoValidators
+        | some ms =>
+          match qcCheck { env with chainId := hd.chainId } q ms with
+          | .error e => .error e
+          | .ok true => .error ErrNoMaj23
+          | .ok false =>
+            if hd.rootHeight < cd.lastRootHeight then .error ErrInvalidQCRootChainHeight
+            else if hd.height ≤ cd.lastChainHeight then .error ErrInvalidQCCommitteeHeight
+            else
+              match slash with
+              | none => .ok (L, { lastRootHeight := hd.rootHeight, lastChainHeight := hd.height })
+              | some l =>
+                match handleDoubleSigners P addrOf L hd.chainId l with
+                | .error e => .error e
+                | .ok L' => .ok (L', { lastRootHeight := hd.rootHeight, lastChainHeight := hd.height })
+
+def certificateResults := certificateResultsWith true
+
 /-! ## the expiry bound as the node wires it -/
 
 /-- `fsm.TimeMachine(height)` clamp followed by `LoadMinimumEvidenceHeight` on that state:
